@@ -68,6 +68,9 @@ func typeNameOf(e ast.Expr) string {
 	return s
 }
 
+// NativeFunc is a function value implemented by the harness (e.g. a callback parameter).
+type NativeFunc func(args []Value) []Value
+
 // Closure is a function literal together with the frame it was created in.
 type Closure struct {
 	Lit *ast.FuncLit
@@ -107,7 +110,10 @@ func (m *Machine) abort(n ast.Node, format string, args ...interface{}) {
 // ---------------------------------------------------------------------------
 
 type Machine struct {
-	Info   *types.Info
+	// Natives replaces functions of the analysed packages by harness implementations (by declaration name), for
+	// helpers that only build error values or use constructs outside the modelled subset.
+	Natives map[string]func(args []Value) []Value
+	Info    *types.Info
 	Pkg    *types.Package
 	Decls  map[*types.Func]*ast.FuncDecl
 	Steps  int
@@ -182,6 +188,11 @@ func declName(d *ast.FuncDecl) string {
 // Call runs a function of the package.
 func (m *Machine) Call(fn *types.Func, recv Value, args []Value) []Value {
 	d := m.Decls[fn]
+	if d != nil && m.Natives != nil {
+		if nf := m.Natives[declName(d)]; nf != nil {
+			return nf(args)
+		}
+	}
 	if d == nil || d.Body == nil {
 		m.abort(nil, "no body for %s", fn.FullName())
 	}
@@ -1038,6 +1049,14 @@ func (m *Machine) compare(n ast.Node, op token.Token, l, r Value) Value {
 		if e, ok := r.(Err); ok && e.Nil {
 			return Bool{bitdom.Const(op != token.EQL)}
 		}
+	case Closure, NativeFunc:
+		if e, ok := r.(Err); ok && e.Nil {
+			return Bool{bitdom.Const(op != token.EQL)}
+		}
+	case nil:
+		if e, ok := r.(Err); ok && e.Nil {
+			return Bool{bitdom.Const(op == token.EQL)}
+		}
 	case Int:
 		b, ok := r.(Int)
 		if !ok {
@@ -1134,6 +1153,13 @@ func (m *Machine) call(fr *frame, c *ast.CallExpr) []Value {
 						}
 						return m.callClosure(cl, args)
 					}
+					if nf, ok := v.(NativeFunc); ok {
+						args := make([]Value, 0, len(c.Args))
+						for _, a := range c.Args {
+							args = append(args, m.eval(fr, a))
+						}
+						return nf(args)
+					}
 				}
 			}
 		}
@@ -1160,6 +1186,40 @@ func (m *Machine) call(fr *frame, c *ast.CallExpr) []Value {
 	switch path + "." + fn.Name() {
 	case "fmt.Errorf", "errors.New":
 		return []Value{Err{Nil: false, Desc: "error"}}
+	case "slices.BinarySearch":
+		l, ok := args[0].(List)
+		t, ok2 := args[1].(Int)
+		if !ok || !ok2 {
+			m.abort(c, "slices.BinarySearch on %T / %T is not modelled", args[0], args[1])
+		}
+		tv, okc := t.V.Int64()
+		if !okc {
+			m.abort(c, "slices.BinarySearch for a value that is not constant on this partition")
+		}
+		lo, hi := 0, len(l.Elems)
+		for lo < hi {
+			mid := (lo + hi) / 2
+			ev, okE := l.Elems[mid].(Int)
+			if !okE {
+				m.abort(c, "slices.BinarySearch over non-integers")
+			}
+			e, okC := ev.V.Int64()
+			if !okC {
+				m.abort(c, "slices.BinarySearch over a table that is not constant")
+			}
+			if e < tv {
+				lo = mid + 1
+			} else {
+				hi = mid
+			}
+		}
+		found := false
+		if lo < len(l.Elems) {
+			if e, ok := l.Elems[lo].(Int).V.Int64(); ok && e == tv {
+				found = true
+			}
+		}
+		return []Value{ConstInt(64, true, uint64(lo)), Bool{bitdom.Const(found)}}
 	case "slices.Clone", "bytes.Clone":
 		if b, ok := args[0].(Bytes); ok {
 			if b.Buf == nil {
